@@ -206,6 +206,32 @@ def rule_kopt_valid(eng, rep, rule="C17-5.incumbent-index-stays-valid"):
     rep.require_count(rule, "stores to the incumbent index", n, 4)
 
 
+def rule_reselection_guard(eng, rep, rule="C17-4b.incumbent-is-re-selected-whenever-a-finite-value-exists"):
+    """add_new_sample re-selects the incumbent by a NaN-ignoring arg-min.  The only admissible guard is `not all values are NaN` (needed because nanargmin
+    raises on an all-NaN slice); any stronger guard skips the re-selection and leaves kopt on a point that is no longer the best."""
+    m = eng.fn("model.Model.add_new_sample")
+    cfg = eng.cfg(m)
+    n = 0
+    for nn, d in cfg.g.nodes(data=True):
+        st = d["ast"]
+        if d["kind"] == "stmt" and isinstance(st, ast.Assign) and _written_field(st.targets[0], m.posparams[0]) == "kopt":
+            n += 1
+            gs = guards_of(cfg, nn)
+            bad = []
+            for (_b, a) in gs:
+                t = ekey(a.lhs).replace("numpy", "np")
+                if a.op == "false" and t.startswith("np.all(np.isnan("):
+                    continue
+                bad.append(a)
+            site = eng.where(m, st)
+            if bad:
+                rep.bad(rule, site, "model.Model.add_new_sample|reselection-guard|%s" % short(bad[0].lhs, 30),
+                        "the incumbent is re-selected only if `%r`: whenever that fails although a finite value is stored, kopt stays on a point that is no longer the best" % bad[0])
+            else:
+                rep.ok(rule, site, "re-selection runs whenever some stored objective is not NaN")
+    rep.require_count(rule, "incumbent re-selections in add_new_sample", n, 1)
+
+
 def run(eng, rep):
     rep.explain("C17 (structural clauses): the per-point record is derived from change_point (fields written at index k); every Model method that relocates, appends, "
                 "replaces or re-samples records must touch all record arrays with one index expression (T4 coherence); sample counts are set to 1 exactly on "
@@ -218,3 +244,6 @@ def run(eng, rep):
     rule_sample_counts(eng, rep)
     rule_selection(eng, rep, "C17-4.incumbent-and-final-selection-tables", {"ORDER", "NAN_CAND", "NAN_HOLDER", "NONE_HOLDER"}, "C17")
     rule_kopt_valid(eng, rep)
+    rule_reselection_guard(eng, rep)
+    from .records import rule_snapshots_are_copies
+    rule_snapshots_are_copies(eng, rep, "C17-6.saved-record-does-not-alias-live-arrays", [("f", "Model", f) for f in ("xsave", "rsave", "jacsave", "jacsave_eval_nums")], "the saved-point slot")
